@@ -160,7 +160,10 @@ CLAIMS.update({
          'increasing in both coordinates, their number is LCS(A,B) (textbook dynamic programme), ses_len == edit_script::length() '
          '== |A|+|B|-2 LCS, applying the script to A yields B, the predicate is never applied outside the ranges, every index and '
          'ABG_ASSERT inside holds.  The recursion is handled deductively: the two recursive calls are replaced by compute_diff\'s '
-         'own contract on a strictly smaller range (measure checked), so no recursion unwinding is involved.',
+         'own contract on a strictly smaller range (measure checked), so no recursion unwinding is involved.  PROVED for sequences of any '
+         'length (loop contracts, unit diffsnake): the local contracts of end_of_fr_d_path_in_k and end_of_frr_d_path_in_k_plus_delta - '
+         'the predicate is applied only to in-range elements of the diagonal, the snake consists of matches only and is maximal, only '
+         'v[k] is written, every d_path_vec index is in range, the result flag and the four snake points are as specified.',
          'Loops of compute_middle_snake and below are unwound (6 / 7 times, unwinding assertions on) - hence bounded; sequences '
          'longer than the bound are not covered.  d_path_vec\'s std::vector<int> base becomes a member (composition rewrite); '
          'std::vector is a bounded inline-array stand-in.  The iterator type is const int*.', '5 C38'),
